@@ -61,6 +61,8 @@ struct Case {
     pauses: Vec<Vec<(u8, u32)>>,
     sender_on_main: bool,
     unique: bool,
+    /// stream tag carried into the case line ("" or "slow-sender-gap")
+    tag: &'static str,
 }
 
 /// a message whose whole content comes from a small alphabet (so that equal messages are frequent)
@@ -182,7 +184,63 @@ fn gen_case(rng: &mut Rng, single: bool) -> Case {
                 .collect::<Vec<_>>(),
         );
     }
-    Case { mode: if single { "single" } else { "multi" }, threads, pauses, sender_on_main: single && rng.chance(1, 2), unique }
+    Case { mode: if single { "single" } else { "multi" }, threads, pauses, sender_on_main: single && rng.chance(1, 2), unique, tag: "" }
+}
+
+/// "slow sender": messages of every kind, an idle gap of `gap_ms` (the sender sleeps), then messages of
+/// every kind again (address-less logs, logs with address, warnings for a fresh and for an already used
+/// address). With `two_threads` a second sender sends a few messages right at the start.
+fn gen_slow_case(rng: &mut Rng, gaps_ms: &[u32], two_threads: bool) -> Case {
+    let info = |t: &str| LogThreadMsg::Log(LogMessage::new_info(t));
+    let located = |t: &str, addr: &str| {
+        let mut tid = Tid::new("blk_1");
+        tid.address = addr.to_string();
+        LogThreadMsg::Log(LogMessage::new_debug(t).location(tid))
+    };
+    let warn = |d: &str, addr: &str| {
+        LogThreadMsg::Cwe(CweWarning::new("CWE476", "0.3", format!("(desc) {}", d)).addresses(vec![addr.to_string()]))
+    };
+    let pool = ["10", "9", "00401000"];
+    let mut msgs: Vec<LogThreadMsg> = vec![info("A"), located("X", "10"), warn("W", "10"), warn("W", "9")];
+    for _ in 0..rng.below(4) {
+        msgs.push(gen_small_msg(rng, &pool, false));
+    }
+    rng.shuffle(&mut msgs);
+    let mut pauses: Vec<(u8, u32)> = msgs.iter().map(|_| (0u8, 0u32)).collect();
+    for (round, gap) in gaps_ms.iter().enumerate() {
+        let fresh = format!("fresh{}", round);
+        let mut after: Vec<LogThreadMsg> = vec![
+            info("B"),
+            info("A"),
+            located("Y", "10"),
+            located("X", &fresh),
+            warn("V", &fresh),
+            warn("V", "10"),
+        ];
+        for _ in 0..rng.below(4) {
+            after.push(gen_small_msg(rng, &pool, false));
+        }
+        rng.shuffle(&mut after);
+        for (i, m) in after.into_iter().enumerate() {
+            msgs.push(m);
+            pauses.push(if i == 0 { (4, *gap) } else { (0, 0) });
+        }
+    }
+    let mut threads = vec![msgs];
+    let mut all_pauses = vec![pauses];
+    if two_threads {
+        let n = 2 + rng.below(4) as usize;
+        threads.push((0..n).map(|_| gen_small_msg(rng, &pool, false)).collect());
+        all_pauses.push(vec![(0, 0); n]);
+    }
+    Case {
+        mode: if two_threads { "multi" } else { "single" },
+        threads,
+        pauses: all_pauses,
+        sender_on_main: false,
+        unique: false,
+        tag: "slow-sender-gap",
+    }
 }
 
 fn pause(p: (u8, u32)) {
@@ -198,6 +256,7 @@ fn pause(p: (u8, u32)) {
             }
         }
         3 => std::thread::sleep(std::time::Duration::from_micros(p.1 as u64)),
+        4 => std::thread::sleep(std::time::Duration::from_millis(p.1 as u64)),
         _ => {}
     }
 }
@@ -250,11 +309,20 @@ fn eval(c: &Case) -> Value {
 
 fn emit(out: &mut Out, c: &Case) {
     let r = eval(c);
+    emit_with(out, c, r);
+}
+
+fn emit_with(out: &mut Out, c: &Case, r: Value) {
     let threads: Vec<Vec<Value>> = c.threads.iter().map(|t| t.iter().map(msg_json).collect()).collect();
     let raw: Vec<Vec<Value>> =
         c.threads.iter().map(|t| t.iter().map(|m| serde_json::to_value(m).unwrap()).collect()).collect();
     let pauses: Vec<Vec<(u8, u32)>> = c.pauses.clone();
-    let line = json!({"mode": c.mode, "threads": threads, "raw": raw, "pauses": pauses, "main": c.sender_on_main, "impl": r});
+    let line = json!({"mode": c.mode, "threads": threads, "raw": raw, "pauses": pauses, "main": c.sender_on_main, "tag": c.tag, "impl": r});
+    if !c.tag.is_empty() {
+        out.count(c.tag);
+        let gap = c.pauses.iter().flatten().filter(|p| p.0 == 4).map(|p| p.1).max().unwrap_or(0);
+        out.count(&format!("slow-sender-gap:max-gap-ms={}", gap));
+    }
     let total: usize = c.threads.iter().map(|t| t.len()).sum();
     out.count(&format!("mode:{}", c.mode));
     out.count(if c.unique { "contents:unique" } else { "contents:small-alphabet" });
@@ -330,7 +398,7 @@ fn main() {
          address-less warning); multi: 2-6 senders x 0-12 messages released by a barrier with random \
          yield/spin/sleep pauses, all joined before collect(); 1-5 addresses per case so that keys collide within \
          and across threads; 70% of the cases draw message contents from a small alphabet with runs of 2-4 equal \
-         messages (identical messages within and across threads), plus 8 directed histories ([A,A], [A,A,A,B,A], ...); non-trivial = at least one message returned; distinct by the sent histories",
+         messages (identical messages within and across threads), plus 8 directed histories ([A,A], [A,A,A,B,A], ...); slow-sender stream: histories with idle gaps of 1.2 s / 2.5 s (thorough: also 6 s / 11 s, several gaps) between messages of every kind, run concurrently; non-trivial = at least one message returned; distinct by the sent histories",
     );
     if let Some(lines) = args.replay_lines() {
         for line in lines {
@@ -340,13 +408,41 @@ fn main() {
             let pauses: Vec<Vec<(u8, u32)>> = serde_json::from_value(v["pauses"].clone())
                 .unwrap_or_else(|_| threads.iter().map(|t| vec![(0, 0); t.len()]).collect());
             let mode = if v["mode"].as_str() == Some("single") { "single" } else { "multi" };
-            let c = Case { mode, threads, pauses, sender_on_main: v["main"].as_bool().unwrap_or(false), unique: false };
+            let c = Case { mode, threads, pauses, sender_on_main: v["main"].as_bool().unwrap_or(false), unique: false,
+                tag: if v["tag"].as_str() == Some("slow-sender-gap") { "slow-sender-gap" } else { "" } };
             emit(&mut out, &c);
         }
         out.finish();
         return;
     }
     let mut rng = Rng::new(args.seed);
+    // slow-sender stream: evaluated concurrently (own threads) while the other streams run, so the wall
+    // time is one gap, not the sum
+    let slow_specs: Vec<(Vec<u32>, bool)> = if args.tier == "quick" {
+        vec![(vec![1200], false), (vec![2500], false), (vec![1200], true), (vec![2500], true)]
+    } else {
+        vec![
+            (vec![1200], false), (vec![2500], false), (vec![6000], false), (vec![11000], false),
+            (vec![1200], true), (vec![2500], true), (vec![6000], true), (vec![11000], true),
+            (vec![1200, 2500], false), (vec![2500, 6000], true), (vec![6000, 1200, 2500], false),
+            (vec![1200, 1200, 1200], true), (vec![11000, 2500], false), (vec![2500, 2500], true),
+        ]
+    };
+    let slow_cases: Vec<Case> = slow_specs.iter().map(|(g, two)| gen_slow_case(&mut rng, g, *two)).collect();
+    let slow_handles: Vec<std::thread::JoinHandle<Value>> = slow_cases
+        .iter()
+        .map(|c| {
+            let c2 = Case {
+                mode: c.mode,
+                threads: c.threads.clone(),
+                pauses: c.pauses.clone(),
+                sender_on_main: c.sender_on_main,
+                unique: c.unique,
+                tag: c.tag,
+            };
+            std::thread::spawn(move || eval(&c2))
+        })
+        .collect();
     let n_single = args.num("single", 2500, 60000);
     let n_multi = args.num("multi", 3500, 100000);
     // directed, always-run histories with identical messages
@@ -372,7 +468,7 @@ fn main() {
         for threads in directed {
             let pauses = threads.iter().map(|t| vec![(0u8, 0u32); t.len()]).collect();
             let single = threads.len() == 1;
-            let c = Case { mode: if single { "single" } else { "multi" }, threads, pauses, sender_on_main: false, unique: false };
+            let c = Case { mode: if single { "single" } else { "multi" }, threads, pauses, sender_on_main: false, unique: false, tag: "" };
             out.count("directed");
             emit(&mut out, &c);
         }
@@ -384,6 +480,10 @@ fn main() {
     for _ in 0..n_multi {
         let c = gen_case(&mut rng, false);
         emit(&mut out, &c);
+    }
+    for (c, h) in slow_cases.iter().zip(slow_handles.into_iter()) {
+        let r = h.join().unwrap_or_else(|_| json!("panic"));
+        emit_with(&mut out, c, r);
     }
     out.finish();
 }
